@@ -1,5 +1,6 @@
 import DendroModel.Model.C01
 import DendroModel.Model.C01Canon
+import DendroModel.Model.C01Ext
 open DendroModel DendroModel.C01
 
 def insertSortedPair (x : Nat × Int) : List (Nat × Int) → List (Nat × Int)
@@ -11,6 +12,32 @@ def parseRooted (s : String) : Option (Option Bool) :=
   if s == "R" then some (some true) else if s == "U" then some (some false) else if s == "N" then some none else none
 
 def b01 (b : Bool) : String := if b then "1" else "0"
+
+/-- steps of a `hist` line: `c <sup> <col>` | `e <tree>` | `q <updated> <split>`; fuel = number of tokens -/
+def parseSteps : Nat → List String → Option (List HOp)
+  | _, [] => some []
+  | 0, _ => none
+  | fuel + 1, "c" :: sup :: col :: rest => (parseSteps fuel rest).map (fun l => HOp.encode (sup == "1") (col == "1") :: l)
+  | fuel + 1, "q" :: u :: s :: rest =>
+    match s.toInt? with
+    | some s => (parseSteps fuel rest).map (fun l => HOp.query (u == "1") s :: l)
+    | none => none
+  | fuel + 1, "e" :: rest =>
+    match parseTree rest with
+    | some (t, rest') => (parseSteps fuel rest').map (fun l => HOp.edit t :: l)
+    | none => none
+  | _, _ => none
+
+/-- the observable after every step of a history: the answer (queries) and the tree as it stands -/
+def showSteps (o : TreeObj) : List HOp → List String
+  | [] => []
+  | op :: ops =>
+    let r := hstep o op
+    let s := match op with
+      | .encode _ _ => "c@" ++ r.1.tree.render
+      | .edit _ => "e"
+      | .query _ _ => (match r.2 with | some b => b01 b | none => "?") ++ "@" ++ r.1.tree.render
+    s :: showSteps r.1 ops
 
 def handle (ws : List String) : String :=
   match ws with
@@ -50,6 +77,37 @@ def handle (ws : List String) : String :=
     | some (t, []) => ucanon t
     | _ => "bad-op"
   -- ucanon2 <tree>: the same canonical unrooted tree, children in mask order, printed structurally (`ucanonT`)
+  -- bip <rooted 0/1> <a> <b> <fill>: the two Bipartition objects compiled from raw leafsets a, b on tree leafset fill (≠ 0):
+  --   leafset_a split_a leafset_b split_b nested_within(a,b) nested_within(a,b,masked) normalize(a,lsb0) normalize(a,lsb1)
+  --   is_compatible_with(a,b) is_trivial(a) is_leafset_nested_within(a,b)
+  | ["bip", r, a, b, f] =>
+    match a.toInt?, b.toInt?, f.toInt? with
+    | some a, some b, some f =>
+      if f == 0 then "undef" else
+      let rt := r == "1"
+      let x := compileBip rt f a
+      let y := compileBip rt f b
+      let lo := PyBits.least_significant_set_bit f
+      s!"{x.1} {x.2} {y.1} {y.2} {b01 (nestedWithin rt false x.1 x.2 y.1 y.2 f)} {b01 (nestedWithin rt true x.1 x.2 y.1 y.2 f)} {normalizeConv false a f lo} {normalizeConv true a f lo} {b01 (isCompatible x.2 y.2 f)} {b01 (isTrivial x.2 f)} {b01 (isNested x.1 y.1 f)}"
+    | _, _, _ => "bad-op"
+  -- bits <s> <fill> <one_based> <ordination_in_mask>: bitprocessing.indexes_of_set_bits
+  | ["bits", s, f, ob, om] =>
+    match s.toInt?, f.toInt? with
+    | some s, some f => ",".intercalate ((indexesOfSetBits s f (ob == "1") (om == "1")).map toString)
+    | _, _ => "bad-op"
+  -- nsmask <accession count> <index>: TaxonNamespace.all_taxa_bitmask, taxon_bitmask
+  | ["nsmask", c, i] =>
+    match c.toNat?, i.toNat? with
+    | some c, some i => s!"{allMask c} {taxonBit i}"
+    | _, _ => "bad-op"
+  -- hist <R|U|N> <tree> <steps…>: encode / edit / query histories, the observable after every step
+  | "hist" :: r :: rest =>
+    match parseRooted r, parseTree rest with
+    | some r, some (t, steps) =>
+      match parseSteps steps.length steps with
+      | some ops => " ; ".intercalate (showSteps { tree := t, rooted := r, stored := none } ops)
+      | none => "bad-op"
+    | _, _ => "bad-op"
   | "ucanon2" :: rest =>
     match parseTree rest with
     | some (t, []) => ucanon2 t
